@@ -39,3 +39,4 @@ def run(ctx):
     lattice.dc_stage(ctx, "dc", pland, {"panic", "incube", "quads", "orient"})
     import c12_raster
     c12_raster.run(ctx)
+    c12_raster.c2f_ratio(ctx)
